@@ -8,27 +8,44 @@
 (* lower corner of the cell, and judges the indices returned by the        *)
 (* implementation with the declarative predicates (exact rationals).       *)
 (***************************************************************************)
-EXTENDS Cubic, Json, Obs_closest      \* ClosestObs (generated; <<>> when emitting)
+EXTENDS Cubic, Json, Obs_closest      \* ClosestObs, ClosestOutObs (generated; <<>> when emitting)
 
-CONSTANTS Fine, Emit
+CONSTANTS Fine, OutM, OutStride, OutPhase, Emit    \* outside lattice: every OutStride-th point, starting at OutPhase
 
+\* den: the grid handed to the implementation is the integer grid divided by den (a power of two, so
+\* that the division is exact in binary floating point): non-integer origins and steps.  Nearest node
+\* and lower corner are invariant under this scaling, hence the judge works on the integer grid.
+\* repr: how the harness represents origin / axes ("float" arrays or "int" arrays; "int" needs den = 1)
 Grids == <<
-    [shape |-> <<3, 4>>,    origin |-> <<-1, 2>>,    step |-> <<2, 3>>],
-    [shape |-> <<4, 2>>,    origin |-> <<0, 5>>,     step |-> <<1, -2>>],
-    [shape |-> <<3, 2, 3>>, origin |-> <<1, -2, 0>>, step |-> <<2, 1, 3>>],
-    [shape |-> <<2, 3, 2>>, origin |-> <<4, 0, -3>>, step |-> <<-1, 2, -3>>],
-    [shape |-> <<2, 2, 4>>, origin |-> <<0, 0, 0>>,  step |-> <<1, 1, 1>>],
-    [shape |-> <<3, 3, 2>>, origin |-> <<-2, 1, 1>>, step |-> <<-2, -1, -1>> ] >>
+    [shape |-> <<3, 4>>,    origin |-> <<-1, 2>>,    step |-> <<2, 3>>,      den |-> 1, repr |-> "float"],
+    [shape |-> <<4, 2>>,    origin |-> <<0, 5>>,     step |-> <<1, -2>>,     den |-> 4, repr |-> "float"],
+    [shape |-> <<3, 2, 3>>, origin |-> <<1, -2, 0>>, step |-> <<2, 1, 3>>,   den |-> 1, repr |-> "int"],
+    [shape |-> <<2, 3, 2>>, origin |-> <<4, 0, -3>>, step |-> <<-1, 2, -3>>, den |-> 8, repr |-> "float"],
+    [shape |-> <<2, 2, 4>>, origin |-> <<0, 0, 0>>,  step |-> <<1, 1, 1>>,   den |-> 1, repr |-> "float"],
+    [shape |-> <<3, 3, 2>>, origin |-> <<-2, 1, 1>>, step |-> <<-2, -1, -1>>, den |-> 1, repr |-> "int"] >>
+ASSUME \A g_ \in 1..Len(Grids) : Grids[g_].den \in {1, 2, 4, 8, 16} /\ (Grids[g_].repr = "int" => Grids[g_].den = 1)
 \* lattice counts per direction and the query with lattice coordinates q (0-based)
 QShape(g_) == [d_ \in 1..Len(g_.shape) |-> Fine * (g_.shape[d_] - 1) + 1]
 QueryPoint(g_, q_) == [d_ \in 1..Len(q_) |-> Q(Fine * g_.origin[d_] + q_[d_] * g_.step[d_], Fine)]
 NQueries(g_) == NPoints(QShape(g_))
 \* queries in lexicographic order of q (the order of the recorded observations)
 QueryNo(g_, x_) == I2CCode(QShape(g_), x_ - 1)
+\* query points OUTSIDE the box ("all query points"): the half-step lattice that extends OutM steps
+\* beyond the box in every direction, without the points of the box itself
+OShape(g_) == [d_ \in 1..Len(g_.shape) |-> 2 * (g_.shape[d_] - 1 + 2 * OutM) + 1]
+OPoint(g_, q_) == [d_ \in 1..Len(q_) |-> Q(2 * g_.origin[d_] + (q_[d_] - 2 * OutM) * g_.step[d_], 2)]
+OutsideOf(g_) ==
+    SelectSeq([x_ \in 1..(NPoints(OShape(g_)) - OutPhase + OutStride - 1) \div OutStride |->
+                  OPoint(g_, I2CCode(OShape(g_), (x_ - 1) * OutStride + OutPhase))],
+              LAMBDA p_ : ~InsideBox(g_.shape, g_.origin, g_.step, p_))
+ForceC(f_) == IF f_ = f_ THEN f_ ELSE f_
+OutTable == ForceC([g_ \in 1..Len(Grids) |-> OutsideOf(Grids[g_])])
 ASSUME Emit => JsonSerialize("cases_closest.json",
     [g_ \in 1..Len(Grids) |->
         [shape |-> Grids[g_].shape, origin |-> Grids[g_].origin, step |-> Grids[g_].step,
-         queries |-> [x_ \in 1..NQueries(Grids[g_]) |-> QueryPoint(Grids[g_], QueryNo(Grids[g_], x_))]]])
+         den |-> Grids[g_].den, repr |-> Grids[g_].repr,
+         queries |-> [x_ \in 1..NQueries(Grids[g_]) |-> QueryPoint(Grids[g_], QueryNo(Grids[g_], x_))],
+         outside |-> OutTable[g_]]])
 
 VARIABLES cpc, cgrid, cq
 Init == cpc = "idle" /\ cgrid = 0 /\ cq = 0
@@ -39,7 +56,14 @@ PickGridBlock == /\ cpc = "idle" /\ ~Emit
 PickQuery == /\ cpc = "block"
              /\ \E x_ \in 1..64 : cq * 64 + x_ <= NQueries(Grids[cgrid]) /\ cq' = cq * 64 + x_
              /\ cpc' = "query" /\ UNCHANGED cgrid
-Next == PickGridBlock \/ PickQuery
+PickOutBlock == /\ cpc = "idle" /\ ~Emit
+                /\ \E g_ \in 1..Len(Grids) : \E b_ \in 0..(Len(OutTable[g_]) - 1) \div 64 :
+                       cgrid' = g_ /\ cq' = b_
+                /\ cpc' = "oblock"
+PickOutQuery == /\ cpc = "oblock"
+                /\ \E x_ \in 1..64 : cq * 64 + x_ <= Len(OutTable[cgrid]) /\ cq' = cq * 64 + x_
+                /\ cpc' = "oquery" /\ UNCHANGED cgrid
+Next == PickGridBlock \/ PickQuery \/ PickOutBlock \/ PickOutQuery
 Spec == Init /\ [][Next]_<<cpc, cgrid, cq>>
 
 AtQuery == cpc = "query"
@@ -66,4 +90,25 @@ JudgeCorner ==
     AtQuery /\ Len(ClosestObs) > 0 /\ Seen[2] # NotRec =>
         IsLowerCorner(G.shape, G.origin, G.step, P, Seen[2])
           \/ PrintT(<<"MISMATCH", cgrid, "origin", P, LowerCornerAlgo(G.shape, G.origin, G.step, P), Seen[2]>>)
+
+(***************************************************************************)
+(* Query points outside the box: the true nearest node is the node whose   *)
+(* coordinates are the rounded fractional coordinates CLAMPED to the grid. *)
+(***************************************************************************)
+AtOut == cpc = "oquery"
+OP == OutTable[cgrid][cq]
+ClampedAlgo(shape_, origin_, step_, p_) ==
+    IndexOf(shape_, [d_ \in 1..Len(p_) |-> Max2(0, Min2(shape_[d_] - 1, QRint(FracCoord(origin_, step_, p_)[d_])))])
+OutsideIsOutside == AtOut => ~InsideBox(G.shape, G.origin, G.step, OP)
+ClampedRoundingFindsNearest ==
+    AtOut => IsNearestNode(G.shape, G.origin, G.step, OP, ClampedAlgo(G.shape, G.origin, G.step, OP))
+\* inside the box clamping changes nothing: the rule of the inside queries is the same rule
+ClampIsNeutralInside ==
+    AtQuery => ClampedAlgo(G.shape, G.origin, G.step, P) = ClosestAlgo(G.shape, G.origin, G.step, P)
+\* observations: ClosestOutObs[g][x] = index returned for which="closest"
+OSeen == ClosestOutObs[cgrid][cq]
+JudgeOutside ==
+    AtOut /\ Len(ClosestOutObs) > 0 /\ OSeen # NotRec =>
+        IsNearestNode(G.shape, G.origin, G.step, OP, OSeen)
+          \/ PrintT(<<"MISMATCH", cgrid, "closest-outside", OP, ClampedAlgo(G.shape, G.origin, G.step, OP), OSeen>>)
 =============================================================================
